@@ -3,6 +3,9 @@
 Part A: MessageQueue (state partition pending / in flight / acknowledged / dead, delivery, redelivery, DLQ hand-over).
 Part B: DeadLetterQueue.  Part C: Topic.  Part D: EventLog.  Part E: ConsumerGroup and assignment strategies.
 Part F: OutboxRelay / IdempotencyStore.
+Extension: ConsumerGroup membership (join/leave/poll/commit request generators, Join/Leave segments, rebalance result also for an
+empty group), EventLog._apply_retention, gated clauses for fixes/C19_redelivery-timer-double-delivers-after-poll.diff, and three
+native end-to-end stand-ins (group membership, queue redelivery path, log reads) under triage/c19_*.py.
 See DESIGN.md section 3-C19 for the clauses.
 """
 from pyvc.spec import *
@@ -61,6 +64,11 @@ loop(F_CG, "ConsumerGroup.handle_event", 2, modifies=[("ConsumerGroup", "_commit
      types={"pid": lambda: Int, "offset": lambda: Int},
      inv=[("committed-never-backwards-and-only-this-consumer", lambda L: _commit_inv(L))])
 ghost(F_CG, "ConsumerGroup.handle_event", None, "event = _c19_typed_event(event)", where="entry")
+
+# EventLog._apply_retention (SizeRetention branch): for partition in self._partitions
+loop(F_LOG, "EventLog._apply_retention", 1, modifies=[("Partition", "records"), ("Partition", "high_watermark")],
+     types={"partition": lambda: Ref(Partition), "excess": lambda: Int, "total_expired": lambda: Int},
+     inv=[("visited-partitions-trimmed-to-their-newest-records-others-untouched", lambda L: _retention_inv(L))])
 
 from specs.common import *  # noqa: E402,F401
 from pyvc import ctx as _ctx  # noqa: E402
@@ -400,6 +408,26 @@ def _inv_order(o):
                    v.R[a.t] < v.R[b.t])))))
 
 
+def _src_has(func, text):
+    """source test for clauses that need a repair from /verif/fixes (until it is applied the registered check stays green)"""
+    import inspect
+    try:
+        return text in inspect.getsource(func)
+    except (OSError, TypeError):
+        return False
+
+
+# fixes/C19_redelivery-timer-double-delivers-after-poll.diff: a delivery clears the message's pending redelivery request and
+# the redelivery timer skips a message that a poll already redelivered.  Without it ONE visibility timeout followed by a poll
+# gives TWO redeliveries (the second while the message is in flight at another consumer): triage/c19_redelivery_double.py
+C19_TIMER_FIX = _src_has(MessageQueue._deliver_message, "_redelivery_scheduled.discard")
+
+
+def _inv_scheduled(o):
+    v = QV(o)
+    return forall(Str, lambda k: mk_bool(z3.Implies(v.sched[k.t], v.P[k.t])))
+
+
 MQ_INV = [
     # `messages` keys = pending (+) in_flight (disjoint; the pending deque is duplicate free by its type)
     ("state-partition:live=pending+in-flight", _inv_partition),
@@ -411,6 +439,10 @@ MQ_INV = [
     ("limits", lambda o: (o._max_redeliveries >= 0) & (o._redelivery_delay > 0)),
     ("counters-nonneg", lambda o: (o._consumer_index >= 0) & (o._messages_published >= 0)),
 ]
+if C19_TIMER_FIX:
+    # a redelivery request waits for its timer only while the message is pending: an in-flight message never carries a stale
+    # request flag, so a consumer's redelivery request for it cannot be swallowed as `already scheduled`
+    MQ_INV.append(("redelivery-request-waits-only-for-a-pending-message", _inv_scheduled))
 
 cls(MessageQueue, fields={
     "_delivery_latency": Real, "_redelivery_delay": Real, "_max_redeliveries": Int, "_capacity": Opt(Int),
@@ -664,7 +696,10 @@ fn(MessageQueue, "schedule_redelivery", args={"message_id": Str},
     ("redelivery-below-the-limit-else-dead-lettered-once", _redelivery_post),
     ("acknowledged-is-never-rescheduled", lambda s: implies(
         contains(s.old(s.self).g_acked, s.message_id), (s.result is None) and unchanged(s, s.self))),
-    ("others-untouched", lambda s: _others_untouched(s, s.message_id))])
+    ("others-untouched", lambda s: _others_untouched(s, s.message_id))]
+   + ([("every-requested-redelivery-of-an-in-flight-message-below-the-limit-is-scheduled", lambda s: True if s.result is not None
+        else Not(contains(s.old(s.self)._in_flight, s.message_id)
+                 & (m_count(s.old(s.self)._messages, s.message_id) < s.old(s.self)._max_redeliveries)))] if C19_TIMER_FIX else []))
 
 
 # ---- publish / deliver / poll / handle_event (generators) -------------------------------------
@@ -822,10 +857,18 @@ def _nothing_acked_is_delivered(s, y):
         o.M[d.t], z3.Not(o.acked[d.t]), z3.Not(o.dead[d.t]), n.cnt(d.t) == o.cnt(d.t) + 1))))
 
 
+def _only_pending_is_delivered(s, y):
+    o, n = QV(s.old(s.self)), QV(s.self)
+    return forall(Str, lambda d: mk_bool(z3.Implies(_newly_in_flight(o, n, d.t), z3.And(o.P[d.t], z3.Not(o.F[d.t])))))
+
+
 fn(MessageQueue, "handle_event", args={"event": Ref(Event)},
    yields=Yields(at_yield=[
        ("only-live-unacknowledged-messages-are-delivered", _nothing_acked_is_delivered),
-       ("at-most-one-message-per-event", _poll_one)]),
+       ("at-most-one-message-per-event", _poll_one)]
+       # a message is handed to ONE consumer at a time: neither a poll nor the redelivery timer delivers a message that is
+       # in flight (needs fixes/C19_redelivery-timer-double-delivers-after-poll.diff)
+       + ([("only-a-pending-message-is-delivered-never-one-in-flight", _only_pending_is_delivered)] if C19_TIMER_FIX else [])),
    ensures=[
     ("at-most-one-delivery-stamped-now", _handle_result_shape),
     ("other-events-ignored", lambda s: implies(
@@ -1084,6 +1127,62 @@ fn(EventLog, "_do_append", args={"key": Str, "value": Any},
     ("counted", lambda s: s.self._records_appended == s.old(s.self)._records_appended + 1)])
 
 
+def _vmin(a, b):
+    return z3.If(a <= b, a, b)
+
+
+# (EventLog._do_read and the Poll branch of ConsumerGroup.handle_event - offset order for readers - are covered by the bounded
+#  stand-in `log-reads-in-offset-order-each-record-to-one-member`: a loop invariant over the re-boxed Record values took z3
+#  minutes per obligation, far beyond the budget of this check)
+# ---- retention: only the oldest records of a partition go; offsets already handed out are never reused ----------------
+def _retained(new_recs, old_recs, keep_max):
+    """new == the newest min(len(old), keep_max) records of old (a suffix: only a prefix was dropped)"""
+    keep = _vmin(z3.Length(old_recs), keep_max)
+    return z3.And(z3.Length(new_recs) == keep, new_recs == z3.Extract(old_recs, z3.Length(old_recs) - keep, keep))
+
+
+def _retention_inv(L):
+    o, n = LV(L.old(L.self)), LV(L.self)
+    mx = field_term(L.self._retention_policy, "_max_records")
+    i = num(L.i)
+    return (forall(Int, lambda j: mk_bool(z3.Implies(z3.And(j.t >= 0, j.t < n.n), z3.And(n.hw(j.t) == o.hw(j.t), z3.If(
+        j.t < i, _retained(n.rec(j.t), o.rec(j.t), mx), n.rec(j.t) == o.rec(j.t))))))
+        & (L.total_expired >= 0))
+
+
+def _retention_post(s):
+    o, n = LV(s.old(s.self)), LV(s.self)
+    pol = s.self._retention_policy
+    if pol is None:
+        return unchanged(s, s.self) & forall(Int, lambda j: mk_bool(z3.Implies(z3.And(j.t >= 0, j.t < n.n), n.rec(j.t) == o.rec(j.t))))
+    mx = field_term(pol, "_max_records")
+    return forall(Int, lambda j: mk_bool(z3.Implies(z3.And(j.t >= 0, j.t < n.n), z3.And(
+        _retained(n.rec(j.t), o.rec(j.t), mx), n.hw(j.t) == o.hw(j.t)))))
+
+
+fn(EventLog, "_apply_retention", returns=Int,
+   focus=lambda s: [] if s.self._retention_policy is None else [s.self._retention_policy], ensures=[
+    ("every-partition-keeps-its-newest-records-only-a-prefix-is-dropped-high-watermark-kept", _retention_post),
+    ("expired-counted", lambda s: (s.result >= 0) & (s.self._records_expired == s.old(s.self)._records_expired + s.result)),
+    ("appends-untouched", lambda s: unchanged(s, s.self, "_records_appended", "_per_partition_appends", "_retention_scheduled"))])
+
+
+def _lemma_retention_keeps_offsets():
+    """dropping a prefix of a gap-free run that ends at the high watermark leaves a gap-free run ending at the same high
+    watermark: the Partition invariant survives retention, and a later append continues at the old high watermark"""
+    off0, off1 = z3.Function("r_off0", z3.IntSort(), z3.IntSort()), z3.Function("r_off1", z3.IntSort(), z3.IntSort())
+    hw, n0, keep, j = z3.Ints("r_hw r_n0 r_keep r_j")
+    assume(z3.And(n0 >= 0, keep >= 0, keep <= n0, hw - n0 >= 0))
+    assume(z3.ForAll([j], z3.Implies(z3.And(j >= 0, j < n0), off0(j) == hw - n0 + j)))            # invariant before
+    assume(z3.ForAll([j], z3.Implies(z3.And(j >= 0, j < keep), off1(j) == off0(n0 - keep + j))))  # suffix of length keep
+    a = z3.Int("r_a")
+    oblige("kept-records-are-gap-free-up-to-the-same-high-watermark",
+           z3.And(hw - keep >= 0, z3.Implies(z3.And(a >= 0, a < keep), off1(a) == hw - keep + a)))
+
+
+lemma("retention-preserves-gap-free-offsets", _lemma_retention_keeps_offsets)
+
+
 
 # ============================================================================ E. ConsumerGroup
 import happysimulator.components.streaming.consumer_group as _cg_mod  # noqa: E402
@@ -1099,7 +1198,17 @@ PROPERTY["assumptions"] += [
     "against it by the bounded stand-in `assignment-strategies-partition` (exhaustive up to 7 partitions x 5 consumers), not proved",
     "list(range(n)) is the sequence 0..n-1 and sorted(d.keys()) a duplicate-free sequence with exactly the keys of d "
     "(models patched into consumer_group's globals by specs/C19.py)",
-    "the Poll branch of ConsumerGroup.handle_event is not under contract (requires event_type != 'Poll')",
+    "the Poll branch of ConsumerGroup.handle_event and EventLog._do_read are not under a deductive contract (requires event_type "
+    "!= 'Poll'); they are exercised by the bounded stand-ins `log-reads-in-offset-order-each-record-to-one-member` and "
+    "`group-membership-changes-leave-no-partition-unowned` only",
+    "MessageQueue.unsubscribe is covered by the bounded stand-in `queue-redelivery-path-end-to-end` only (list.remove over a "
+    "symbolic sequence: IndexOf/Extract goals that z3 does not decide within the budget)",
+    "EventLog._apply_retention is proved for SizeRetention (and no policy); the high-watermark/offset consequences follow by the "
+    "lemma retention-preserves-gap-free-offsets from the per-partition suffix clause (the Partition objects are not focus objects there)",
+    "PartitionAssignment interface contract, second half: the keys of the result are exactly the given consumers also for an "
+    "EMPTY consumer list (nobody left => nobody owns anything); checked for the three shipped strategies by the same bounded stand-in",
+    "ConsumerGroup.join/leave/poll/commit: the SimFuture() they create is replaced by an identity-only stand-in while they are "
+    "verified (SimFuture itself is under contract in C02); the value the engine sends back at `yield reply` is arbitrary",
 ]
 
 OFFSETS = Map(Int, Int)
@@ -1357,6 +1466,81 @@ def _join_reply(s):
     return contains(a, name) & mk_bool(rep.term == z3.Select(ASSIGN.dt.val(a.term), name.t))
 
 
+# ---- the public request generators join / leave / poll / commit ----------------------------------------------
+# Each hands ONE request event to the group (stamped now, so the engine does not discard it - C07), carrying exactly the
+# caller's arguments and the future it then waits on; the group's state is not touched by the request itself.
+class _ApiFuture:
+    """stand-in for the SimFuture() a request generator creates (identity only; SimFuture itself is under contract in C02)"""
+
+
+_RealSimFuture = _cg_mod.SimFuture
+
+
+def _new_future():
+    if not _ctx.active():
+        return _RealSimFuture()
+    f = _ApiFuture()
+    _ctx.cur().ghost_args["c19_future"] = f
+    return f
+
+
+_cg_mod.SimFuture = _new_future
+
+
+_CG_STATE = (("_consumers", Map(Str, Ref(Entity), ordered=True)), ("_assignments", ASSIGN), ("_committed_offsets", Map(Str, OFFSETS)),
+             ("_generation", Int), ("_joins", Int), ("_leaves", Int), ("_rebalances", Int), ("_polls", Int), ("_commits", Int),
+             ("_records_polled", Int))
+
+
+def _cg_same(now, view):
+    """the group's mutable state equals the one in `view` (an s.pre / s.old view)"""
+    h = _ctx.cur().heap
+    return mk_bool(z3.And(*[z3.Select(h.array(("ConsumerGroup", f), ty), now._ref)
+                            == z3.Select(h.array(("ConsumerGroup", f), ty, view._frozen), now._ref) for f, ty in _CG_STATE]))
+
+
+def _request(kind, keys, reply=True):
+    def clause(s, y):
+        fut = _ctx.cur().ghost_args.get("c19_future")
+        if isinstance(y, tuple):
+            if len(y) != 2 or len(y[1]) != 1 or getattr(s, "_c19_requested", False):
+                return False
+            s._c19_requested = True
+            e = y[1][0]
+            ok = ((y[0] == 0.0) & same(e.target, s.self) & (e.event_type == kind) & (ns(e.time) == now_ns(s.self))
+                  & Not(e._cancelled) & unchanged(s, s.self))
+            for key in keys:
+                ok = ok & ctx_is(e, key, getattr(s, key))
+            if reply:
+                ok = ok & ctx_is(e, "reply_future", fut)
+            return ok
+        # the second yield: wait for the reply of THIS request (the group as the other processes left it: s.pre)
+        return reply and getattr(s, "_c19_requested", False) and (y is fut) and _cg_same(s.self, s.pre(s.self))
+    return ("one-request-event-to-the-group-stamped-now-with-the-callers-arguments-then-wait-for-its-reply", clause)
+
+
+def _sent_reply(ty):
+    def resume(s, y):
+        if isinstance(y, tuple):
+            return None
+        s._c19_sent = ty.fresh("reply_value")
+        return s._c19_sent
+    return resume
+
+
+_REQUESTED = ("request-was-sent", lambda s: getattr(s, "_c19_requested", False))
+fn(ConsumerGroup, "join", args={"consumer_name": Str, "consumer_entity": Ref(Entity)},
+   yields=Yields(at_yield=[_request("Join", ("consumer_name", "consumer_entity"))], resume=_sent_reply(Seq(Int))),
+   ensures=[_REQUESTED, ("returns-the-assignment-the-group-replied", lambda s: mk_bool(s.result.term == s._c19_sent.term))])
+fn(ConsumerGroup, "leave", args={"consumer_name": Str},
+   yields=Yields(at_yield=[_request("Leave", ("consumer_name",))], resume=_sent_reply(Any)), ensures=[_REQUESTED])
+fn(ConsumerGroup, "poll", args={"consumer_name": Str, "max_records": Int},
+   yields=Yields(at_yield=[_request("Poll", ("consumer_name", "max_records"))], resume=_sent_reply(Seq(RECORD))),
+   ensures=[_REQUESTED, ("returns-the-records-the-group-replied", lambda s: mk_bool(s.result.term == s._c19_sent.term))])
+fn(ConsumerGroup, "commit", args={"consumer_name": Str, "offsets": OFFSETS},
+   yields=Yields(at_yield=[_request("Commit", ("consumer_name", "offsets"), reply=False)]), ensures=[_REQUESTED])
+
+
 
 # ============================================================================ F. OutboxRelay / IdempotencyStore
 import happysimulator.components.microservice.idempotency_store as _is_mod  # noqa: E402
@@ -1504,6 +1688,10 @@ def check(kind, res, parts, cons):
 
 for n in range(0, 8):
     parts = list(range(n))
+    for kind, strat in (("range", RangeAssignment()), ("roundrobin", RoundRobinAssignment()), ("sticky", StickyAssignment())):
+        evals += 1
+        if strat.assign(list(parts), []) != {}:            # nobody left: nobody owns anything
+            viol.append({"case": f"{kind} partitions={n} consumers=[]", "result": strat.assign(list(parts), [])})
     for k in range(1, 6):
         for cons in itertools.combinations(names, k):
             cons = list(cons)
@@ -1553,6 +1741,20 @@ PROPERTY["bounded"] = [
               "member within the delay) + three 3-member schedules; Range/RoundRobin/Sticky; 1 and 4 partitions; checked 0.01 s "
               "after every rebalance instant and at quiescence; then every appended record is polled by exactly one member in offset order",
      "fn": lambda seed, tier: run_native_script("triage/c19_group_membership.py")},
+    # the queue's visibility-timeout / redelivery path end to end (delivery events really pass through the engine)
+    {"name": "queue-redelivery-path-end-to-end",
+     "bound": "native Simulation: 1-2 consumers x behaviours {ack, reject, drop, timeout->schedule_redelivery, late ack}, 1 or 3 messages, "
+              "max_redeliveries {0,1,3}, with/without DLQ, latency {0, 0.01}, redelivery_delay {0.3, 2.0} (timer before / after the next "
+              "poll), optional unsubscribe; polls every 0.5 s for 30 s; four-state accounting at quiescence, nothing after ack / "
+              "unsubscribe, publish order, redelivery limit" + ("; strict: no delivery while in flight elsewhere" if C19_TIMER_FIX else ""),
+     "fn": lambda seed, tier: run_native_script("triage/c19_queue_e2e.py", *(["--strict"] if C19_TIMER_FIX else []))},
+    # readers: offset order per partition, each record to exactly one member (EventLog.read/_do_read/retention sweep,
+    # ConsumerGroup Poll + Commit branches through the public generators)
+    {"name": "log-reads-in-offset-order-each-record-to-one-member",
+     "bound": "native Simulation: log with 1-3 partitions x {no retention, SizeRetention 2 / 5}, 12 appends, every read(partition, "
+              "offset -1..hw+1, max 1/2/100); group of 2 members x 1/2/4 partitions x Range/RoundRobin/Sticky x max_records 2/100 x "
+              "with/without a backwards commit after each forward commit, poll+commit rounds until drained",
+     "fn": lambda seed, tier: run_native_script("triage/c19_log_reads.py")},
 ]
 
 
